@@ -63,8 +63,20 @@ COLLISIONS = [
                                        "module A\ntypealias Y = Old\ninterface I2 : OldI {}\n", "module A\ntypealias Z = Sequence<Old>\nstruct U { o: Old, p: Old }\n"]),
     ("broken-links-same-target-many-files", ["module A\n/// {@link Nope}\nstruct S1 {}\n", "module A\n/// {@link Nope}\nstruct S2 {}\n/// {@link Nope}\nstruct S3 {}\n",
                                             "module A::B\n/// {@link Nope}\n/// @see Nope\nstruct S1 {}\n"]),
+    # symbols given on the command line (DEFINES below) belong to every file afresh: a file that undefines or swaps them changes
+    # nothing for the files compiled after it
+    ("cmdline-symbol-undefined-elsewhere", ["#undef LEGACY\nmodule Demo\nstruct Fresh { id: int32 }\n",
+                                            "module Demo\n#if LEGACY\nstruct Shared { x: bool }\n#endif\nstruct User { s: Shared }\n", "module Z\ncustom K\n"]),
+    ("cmdline-symbol-swapped-elsewhere", ["module First\n#undef A\n#define B\nstruct F {}\n",
+                                          "module Second\n#if A\nstruct SeenA {}\n#endif\n#if B\nstruct Bad { f: NoSuch }\n#endif\nstruct U { a: SeenA }\n", "module Z\ncustom K\n"]),
+    ("cmdline-symbols-undefined-and-redefined", ["#undef P\n#undef Q\n#define P\nmodule A\n#if P && !Q\nstruct S {}\n#endif\nstruct T { s: S }\n",
+                                                 "module B\n#if P && Q\nstruct S {}\n#endif\nstruct T { s: S }\n", "#undef Q\nmodule C\n#if P && !Q\nstruct V { t: B::T }\n#endif\n"]),
     ("operation-vs-parameter-scope", ["module A\ninterface I { op(op: bool) -> (op: bool, r: bool) }\n", "module A\n/// {@link I::op}\nstruct L {}\n"]),
 ]
+
+DEFINES = {"collision/cmdline-symbol-undefined-elsewhere": ["LEGACY"], "collision/cmdline-symbol-swapped-elsewhere": ["A"],
+           "collision/cmdline-symbols-undefined-and-redefined": ["P", "Q"]}
+_CASE_DEFINES = {}
 
 INJECT = ["\nstruct DupX {}\nstruct DupX {}\n", "\nstruct BadRef { f: NoSuchType }\n", "\nstruct BadTag { tag(1) a: bool?, tag(1) b: bool? }\n",
           "\nstruct Cyc { c: Cyc }\n", "\n[foo] struct BadAttr {}\n", "\nstruct {\n"]
@@ -81,6 +93,8 @@ def run_once(ctx, case_dir, names, order, split, schema, gen_path):
     argv = []
     for i in order:
         argv += [names[i]] if split[i] else ["-R", names[i]]
+    for sym in _CASE_DEFINES.get(case_dir, ()):
+        argv += ["-D", sym]
     argv += ["--diagnostic-format", "json", "-G", gen_path + ",k1=v1,k2=v2,zeta=é,alpha,k5=5,k6=six"]
     res = ctx.run_slicec(argv, cwd=case_dir, env={"FAKEGEN_LOG": log})
     cap = [x for x in os.listdir(log) if x.endswith(".stdin")]
@@ -112,6 +126,8 @@ def check_program(ctx, root, n, texts, family, schema, valid_expected=None, dups
     """dups: indices of files that are listed once more each (the same spelling), so that every arrangement holds repeats."""
     case_dir = os.path.join(root, "p%d" % n)
     os.makedirs(case_dir)
+    if family in DEFINES:
+        _CASE_DEFINES[case_dir] = DEFINES[family]
     names = []
     for i, t in enumerate(texts):
         name = "f%d.slice" % i
